@@ -268,8 +268,16 @@ def is_sym(v):
     return isinstance(v, z3.ExprRef)
 
 
+_BVV = {}
+_SIMP = {}      # ast id -> (expr kept alive, constant truth or None, simplified, negation)
+
+
 def bvval(x, w):
-    return z3.BitVecVal(x, w)
+    k = (x, w)
+    r = _BVV.get(k)
+    if r is None:
+        r = _BVV[k] = z3.BitVecVal(x, w)
+    return r
 
 
 def mask(v, signed, w):
@@ -311,6 +319,7 @@ class Engine:
         s.intercepts = []     # (regex on fn name, fn)  -- harness stubs replacing MIR functions
         s.const_cache = {}
         s.resolve_cache = {}
+        s.dyn_info = {}
         s.impl_index = None
         # exploration state
         s.solver = z3.Solver()
@@ -329,6 +338,7 @@ class Engine:
         s.alloc_calls = []    # C13: calls into alloc::/std:: met on a path
         s.fork_limit = None
         s.stack = []
+        s.known = {}
 
     # ------------------------------------------------------------------ loading
     def load(s, fns, allocs, crate):
@@ -414,16 +424,30 @@ class Engine:
         if isinstance(v, int):
             return v != 0
         if z3.is_bool(v):
-            if z3.is_true(v):
-                return True
-            if z3.is_false(v):
-                return False
-            v2 = z3.simplify(v)
-            if z3.is_true(v2):
-                return True
-            if z3.is_false(v2):
-                return False
-            return s.decide([(True, v2), (False, z3.Not(v2))])
+            vid = v.get_id()
+            k = s.known.get(vid)
+            if k is not None:
+                return k
+            hit = _SIMP.get(vid)
+            if hit is None:
+                v2 = z3.simplify(v)
+                if z3.is_true(v2):
+                    hit = (v, True, None, None)
+                elif z3.is_false(v2):
+                    hit = (v, False, None, None)
+                else:
+                    hit = (v, None, v2, z3.Not(v2))
+                _SIMP[vid] = hit
+            if hit[1] is not None:
+                return hit[1]
+            v2, n2 = hit[2], hit[3]
+            id2 = v2.get_id()
+            k = s.known.get(id2)
+            if k is None:
+                k = s.decide([(True, v2), (False, n2)])
+                s.known[id2] = k
+            s.known[vid] = k
+            return k
         if z3.is_bv(v):
             return s.truth(v != 0)
         raise Unsupported(f'truth of {v!r}')
@@ -478,6 +502,7 @@ class Engine:
         s.steps = 0
         s.alloc_calls = []
         s.stack = []
+        s.known = {}
         s.solver.push()
         try:
             try:
@@ -652,20 +677,23 @@ class Engine:
         s.impl_index = idx
 
     def dispatch_dynamic(s, txt, args, env, crate):
-        m = _TRAIT_CALL_RE.match(txt)
-        selfty, trait, targs, method = m.group(1), m.group(2), m.group(3), m.group(4)
-        traitname = trait.split('::')[-1]
-        recv = deref(args[0]) if args else None
-        st = norm_type(selfty)
-        unresolved = st.startswith('impl ') or st in GENERIC_NAMES or st.startswith('<') or '{async' in st
+        info = s.dyn_info.get(txt)
+        if info is None:
+            m = _TRAIT_CALL_RE.match(txt)
+            selfty, trait, targs, method = m.group(1), m.group(2), m.group(3), m.group(4)
+            st = norm_type(selfty)
+            unresolved = st.startswith('impl ') or st in GENERIC_NAMES or st.startswith('<') or '{async' in st
+            foreign = trait.startswith(('core::', 'std::', 'alloc::', 'heapless::', 'fmt::')) or '::fmt::' in trait
+            info = (st, trait, trait.split('::')[-1], targs, method, unresolved, foreign)
+            s.dyn_info[txt] = info
+        st, trait, traitname, targs, method, unresolved, foreign = info
         if unresolved:
-            rt = rt_type(recv)
+            rt = rt_type(deref(args[0])) if args else None
             if rt is not None:
                 st = rt
-        key = ('dyn', trait, targs, method, st, len(args))
+        key = (txt, st, len(args))
         target = s.resolve_cache.get(key)
         if target is None:
-            foreign = trait.startswith(('core::', 'std::', 'alloc::', 'heapless::', 'fmt::')) or '::fmt::' in trait
             target = s.resolve_trait_call(txt, st, traitname, targs, method, args, env, unresolved, foreign)
             s.resolve_cache[key] = target
         if target[0] == 'fn':
@@ -1139,8 +1167,8 @@ class Compiler:
         fn = s.fn
         dest_ty = s.place_type(dest) if dest else ''
         # cast
-        m = re.fullmatch(r'((?:copy|move|const) .*) as (.*?) \((\w+(?:\([\w, ]*\))?)\)', rv)
-        if m and find_top(rv, ' as ') >= 0:
+        m = re.fullmatch(r'((?:copy|move|const) .*|[A-Za-z_<][^ ]*(?:::<.*>)?) as (.*?) \((\w+(?:\([\w, ()]*\))?)\)', rv)
+        if m and find_top(rv, ' as ') >= 0 and not rv.startswith('<') or (m and rv.startswith('<') and find_top(rv, ' as ') >= 0 and '(PointerCoercion' in rv):
             op = s.c_operand(m.group(1))
             src_ty = s.operand_type(m.group(1))
             ty, kind = m.group(2), m.group(3)
@@ -1719,7 +1747,7 @@ def _coerce(x, y, width=None):
     if z3.is_bool(like):
         o = z3.BoolVal(bool(other))
     else:
-        o = z3.BitVecVal(int(other), like.size())
+        o = bvval(int(other), like.size())
     return (x, o) if xs else (o, y)
 
 
